@@ -25,6 +25,7 @@ import (
 type c09mStream struct {
 	opened, alive bool
 	eof           bool
+	resp          bool // the server ended its side (response HEADERS with END_STREAM)
 	win, pend     int64
 }
 
@@ -86,10 +87,15 @@ func (m *c09Model) enabled(ev c08srvEv) bool {
 		if ev.arg(0) == 0 {
 			return true
 		}
-		s := &m.s[c08Idx(ev.arg(0))]
-		return s.alive && !m.bodyDone(s)
+		// A stream-level WINDOW_UPDATE is legal in every state of a stream that
+		// was opened (RFC 9113 §5.1: open, half-closed, and for a short period
+		// after the stream was closed or reset), so it is explored in all of them.
+		return m.s[c08Idx(ev.arg(0))].opened
 	case "RST":
 		return m.s[c08Idx(ev.arg(0))].alive
+	case "RESP":
+		s := &m.s[c08Idx(ev.arg(0))]
+		return s.alive && !s.resp
 	}
 	return false
 }
@@ -128,6 +134,9 @@ func (m *c09Model) apply(ev c08srvEv) {
 			m.cw += ev.arg(1)
 		} else {
 			s := &m.s[c08Idx(ev.arg(0))]
+			if !s.alive {
+				return // late frame on a closed stream: no window is affected
+			}
 			if s.win+ev.arg(1) > c08MaxWin {
 				s.alive = false // the client resets the stream
 				return
@@ -137,6 +146,10 @@ func (m *c09Model) apply(ev c08srvEv) {
 		m.flush()
 	case "RST":
 		m.s[c08Idx(ev.arg(0))].alive = false
+	case "RESP":
+		// The stream is half-closed (remote) for the client, which may go on
+		// sending its body; once the body is complete the stream is closed.
+		m.s[c08Idx(ev.arg(0))].resp = true
 	}
 }
 
@@ -163,6 +176,9 @@ func c09Alphabet(iws, mfss, bsizes, wus []int64) []c08srvEv {
 	}
 	for _, id := range []int64{1, 3} {
 		a = append(a, c08srvEv{K: "RST", A: []int64{id}})
+	}
+	for _, id := range []int64{1, 3} {
+		a = append(a, c08srvEv{K: "RESP", A: []int64{id}})
 	}
 	for _, v := range mfss {
 		a = append(a, c08srvEv{K: "SETMFS", A: []int64{v}})
@@ -221,6 +237,8 @@ type c09Result struct {
 	blockedSeen      bool
 	overflowSeen     bool
 	negWindowSeen    bool
+	lateWUSeen       bool // a WINDOW_UPDATE was delivered for a closed stream
+	dataAfterLateWU  int  // DATA frames seen after such a WINDOW_UPDATE
 }
 
 func c09RunCase(w *vx.W, t testing.TB, cs c09cliCase) (res c09Result, harnessErr string) {
@@ -241,6 +259,9 @@ func c09RunCase(w *vx.W, t testing.TB, cs c09cliCase) (res c09Result, harnessErr
 			switch f.Type {
 			case FrameData:
 				res.dataFrames++
+				if res.lateWUSeen {
+					res.dataAfterLateWU++
+				}
 			case FrameHeaders:
 				if mon.streams[f.Stream] == nil {
 					mon.streams[f.Stream] = &c08monStream{id: f.Stream, born: mon.setsSent, base: mon.iwSent}
@@ -264,6 +285,14 @@ func c09RunCase(w *vx.W, t testing.TB, cs c09cliCase) (res c09Result, harnessErr
 	step("preface")
 	if w.Failed() || env.harnessErr != "" {
 		return
+	}
+
+	// respEnded: streams whose response the harness ended (END_STREAM sent by
+	// the server side). closed: RFC 9113 §5.1 "closed" — reset by either side,
+	// or END_STREAM sent in both directions.
+	respEnded := map[uint32]bool{}
+	closed := func(s *c08monStream) bool {
+		return s.srvRST || s.cliRST || (s.ended && respEnded[s.id])
 	}
 
 	pending := func(s *c08monStream) int64 {
@@ -290,7 +319,10 @@ func c09RunCase(w *vx.W, t testing.TB, cs c09cliCase) (res c09Result, harnessErr
 			}
 			if p := pending(s); p > 0 {
 				res.blockedSeen = true
-				if s.base > 0 && mon.cw > 0 {
+				// Once the server has ended the response the property no longer
+				// demands that the rest of the body is sent (the windows still
+				// bound whatever is sent).
+				if s.base > 0 && mon.cw > 0 && !respEnded[s.id] {
 					w.Failf("C09/progress/stalled-with-open-windows/after-"+mon.lastKind, "%s: stream %d has %d request-body bytes not on the wire although stream window=%d and connection window=%d are positive and the system is quiescent", ctx, s.id, p, s.base, mon.cw)
 				}
 			}
@@ -323,6 +355,7 @@ func c09RunCase(w *vx.W, t testing.TB, cs c09cliCase) (res c09Result, harnessErr
 		}
 		ctx := fmt.Sprintf("event %d %s", i, es)
 		applied := true
+		lateWU := false
 		switch ev.K {
 		case "SETIW", "SETMFS":
 			p := c08PendSet{seq: mon.setsSent}
@@ -374,18 +407,40 @@ func c09RunCase(w *vx.W, t testing.TB, cs c09cliCase) (res c09Result, harnessErr
 				}
 			} else {
 				s := mon.streams[id]
-				if s == nil || !s.alive() {
-					applied = false
+				if s == nil {
+					applied = false // idle stream: a WINDOW_UPDATE would be a protocol error of the server
 					break
 				}
-				if mon.bound(s)+k > c08MaxWin {
+				switch {
+				case closed(s):
+					// RFC 9113 §5.1 "closed": WINDOW_UPDATE may legally arrive for a
+					// short period after the stream was closed or reset. It grants
+					// nothing: neither the connection window nor any live stream's
+					// window changes.
+					lateWU = true
+					res.lateWUSeen = true
+				case mon.bound(s)+k > c08MaxWin:
 					s.overflow = true
 					res.overflowSeen = true
-				} else {
+				default:
 					s.base += k
 				}
 			}
 			env.wr(env.tc.fr.WriteWindowUpdate(id, uint32(k)))
+		case "RESP":
+			// The server answers and ends its side of the stream: response
+			// HEADERS with END_STREAM. Legal while the stream is open or
+			// half-closed (local) for the client; the client may keep sending
+			// its request body (half-closed (remote)), still bounded by the
+			// windows. Together with the client's END_STREAM the stream is closed.
+			id := uint32(ev.arg(0))
+			s := mon.streams[id]
+			if s == nil || s.srvRST || s.cliRST || respEnded[id] {
+				applied = false
+				break
+			}
+			respEnded[id] = true
+			env.respHeaders(id, true)
 		case "RST":
 			id := uint32(ev.arg(0))
 			s := mon.streams[id]
@@ -405,9 +460,12 @@ func c09RunCase(w *vx.W, t testing.TB, cs c09cliCase) (res c09Result, harnessErr
 		res.applied++
 		mon.lastKind = ev.K
 		if ev.K == "WU" {
-			if ev.arg(0) == 0 {
+			switch {
+			case ev.arg(0) == 0:
 				mon.lastKind = "WU-conn"
-			} else {
+			case lateWU:
+				mon.lastKind = "WU-closed-stream"
+			default:
 				mon.lastKind = "WU-stream"
 			}
 		}
@@ -452,6 +510,9 @@ func c09Check(c *vx.Ctx) func(w *vx.W, cs c09cliCase) {
 		default:
 			w.Outcome("no-data")
 		}
+		if res.dataAfterLateWU > 0 {
+			w.Outcome("data-after-window-update-on-closed-stream")
+		}
 		if res.skipped > 0 {
 			w.Outcome("model-real-disagreement-skipped-event")
 		}
@@ -476,6 +537,10 @@ func TestVerif_C09(t *testing.T) {
 		seedTwo := []string{"SETIW(3)", "REQ", "REQ", "BM(1,5)"}
 		seedNeg := []string{"REQ", "BM(1,20)", "SETIW(3)", "REQ"}
 		seedBig := []string{"SETMFS(16777215)", "REQ", "WU(1,100000)", "WU(0,100000)"}
+		// stream 1 completed in both directions (closed, forgotten by the client)
+		// after using all but 5 bytes of the connection window: the connection
+		// window, not the stream window, bounds the body of the next request.
+		seedClosed := []string{"REQ", "BM(1,65530)", "BE(1)", "RESP(1)"}
 		aSmall := c09Alphabet(iws, mfss, small, wus)
 		aSeed := c09Alphabet(iws, nil, small, wus)
 		aBig := c09Alphabet([]int64{0, 65535}, mfss, big, []int64{1, 100})
@@ -485,11 +550,12 @@ func TestVerif_C09(t *testing.T) {
 			{"two-streams-blocked", seedTwo, aSeed, vx.Pick(c, 3, 4)},
 			{"negative-window", seedNeg, aSeed, vx.Pick(c, 3, 4)},
 			{"big-bodies", seedBig, aBig, vx.Pick(c, 3, 4)},
+			{"closed-stream-conn-nearly-full", seedClosed, aSeed, vx.Pick(c, 3, 4)},
 		}
-		c.Rule("EV: for each seed prefix every event sequence of depth 1..D after the seed over {REQ (<=2 concurrent POSTs with harness-fed bodies), body bytes available (n), body EOF, server WINDOW_UPDATE(conn|stream, k), server SETTINGS INITIAL_WINDOW_SIZE / MAX_FRAME_SIZE, server RST_STREAM}, pruned by a predictive model and decided on the real state at run time; each sequence runs on a fresh real Transport ClientConn in its own synctest bubble; after every event: quiescence, drain all frames, RFC 7540 §6.9 window accounting on every DATA frame, frame length vs MAX_FRAME_SIZE, progress at quiescence, white-box cc.flow/cs.flow == monitor. non-trivial = the client emitted at least one DATA frame; states = explored event histories (stateless search), transitions = events applied to the real ClientConn and checked at quiescence, traces = histories executed to their end")
+		c.Rule("EV: for each seed prefix every event sequence of depth 1..D after the seed over {REQ (<=2 concurrent POSTs with harness-fed bodies), body bytes available (n), body EOF, server WINDOW_UPDATE(conn|stream, k) where the stream is any stream opened so far in any RFC 9113 §5.1 state (open, half-closed either way, closed by END_STREAM in both directions or by RST_STREAM: the late WINDOW_UPDATE a server may legally send shortly after close, which grants nothing), server response HEADERS+END_STREAM (the client may finish its body on the half-closed stream), server SETTINGS INITIAL_WINDOW_SIZE / MAX_FRAME_SIZE, server RST_STREAM}, at most two requests per connection (the second may start after the first stream closed), pruned by a predictive model and decided on the real state at run time; each sequence runs on a fresh real Transport ClientConn in its own synctest bubble; after every event: quiescence, drain all frames, RFC 7540 §6.9 window accounting on every DATA frame, frame length vs MAX_FRAME_SIZE, progress at quiescence, white-box cc.flow/cs.flow == monitor. non-trivial = the client emitted at least one DATA frame; states = explored event histories (stateless search), transitions = events applied to the real ClientConn and checked at quiescence, traces = histories executed to their end")
 		c.Assume("interleavings are explored at event granularity (L2)")
 		c.Assume("after a WINDOW_UPDATE/SETTINGS that would push a window above 2^31-1 that window is undefined and no longer checked (the reaction to the overflow itself is not part of C09)")
-		c.Assume("progress is checked only as: at quiescence no live stream has available request-body bytes off the wire while both its windows are positive (L4)")
+		c.Assume("progress is checked only as: at quiescence no live stream has available request-body bytes off the wire while both its windows are positive (L4); not demanded for a stream whose response the server has already ended")
 		c08Determinism(c, func(w *vx.W, t testing.TB) ([]string, string) {
 			res, herr := c09RunCase(w, t, c09cliCase{Evs: []string{"SETIW(3)", "REQ", "REQ", "BM(1,5)", "BM(3,20)", "WU(1,4)", "SETIW(10)", "BE(1)", "RST(3)"}})
 			return res.trace, herr
